@@ -189,6 +189,14 @@ def readAllWith (c : Codec) : Reader → List Nat → Option Bytes
     | (_, .eof) => some []
     | (_, .err) => none
 
+/-- everything a consumer with buffer sizes `ks` receives before the end, an error, or running out of sizes -/
+def readAllOut (c : Codec) : Reader → List Nat → Bytes
+  | _, [] => []
+  | r, k :: ks =>
+    match read c (r.rest.length + 2) r k with
+    | (r', .data b) => b ++ readAllOut c r' ks
+    | _ => []
+
 /-- `WriteTo(w)` (what io.Copy uses): write what is pending in `output`, then chunk after chunk (`readChunk(nil)`:
 no direct decoding except for empty blocks) until EOF; the result is everything written to `w` -/
 def writeTo (c : Codec) : Nat → Reader → Option Bytes
